@@ -11,7 +11,7 @@ Proof. induction m as [|[i v] r IH]; intros nidx nv; simpl; [reflexivity|]. rewr
 (** the two tokens that the proposed fixes change (sort key of the main loop; visited-set of
     get_simple_type_info_with_prot) are compared with the model's parameters by the check itself
     (correspondence "source_flags"), so that this file compiles on the unrepaired tree too *)
-Definition source_flags_ok : bool := src_sort_natural && src_sti_per_branch.
+Definition source_flags_ok : bool := src_sort_natural && src_sti_per_branch && src_idxmap_keeps_list && src_date_header_plain.
 
 Lemma source_tie :
   (forall m nidx, src_s2cmi m nidx = s2cmi m nidx) /\
@@ -20,7 +20,9 @@ Lemma source_tie :
   (forall a b, src_strict_append a b = (a =? b)) /\
   src_empty_read = EMPTY /\ src_empty_written = EMPTY /\
   src_index_format = [37; 115; 91; 37; 100; 93] /\                          (* %s[%d] *)
-  src_qs_separators = [38; 59] /\ src_qs_equals = 61 /\ src_qs_plus = (43, 32).
+  src_qs_separators = [38; 59] /\ src_qs_equals = 61 /\ src_qs_plus = (43, 32) /\
+  src_header_date_format = [37; 115; 44; 32; 37; 48; 50; 100; 32; 37; 115; 32; 37; 48; 52; 100; 32; 37; 48; 50; 100; 58; 37; 48; 50; 100; 58; 37; 48; 50; 100; 32; 71; 77; 84] /\   (* %s, %02d %s %04d %02d:%02d:%02d GMT *)
+  src_weekday = WEEKDAY /\ src_month = MONTH.
 Proof.
   split; [intros m nidx; unfold src_s2cmi, s2cmi; now rewrite src_s2cmi_loop_eq|].
   repeat split; reflexivity.
